@@ -64,6 +64,15 @@ pub fn apply_index_damage(dir: &Path, d: &Damage, _keylen: usize) -> Option<&'st
             f.set_len(t).ok()?;
             Some("index_truncated")
         }
+        DamageKind::TruncateTo { len } => {
+            let cur = path.metadata().ok()?.len();
+            if (*len as u64) >= cur {
+                return None;
+            }
+            let f = std::fs::OpenOptions::new().write(true).open(path).ok()?;
+            f.set_len(*len as u64).ok()?;
+            Some("index_truncated")
+        }
         DamageKind::ClearWritten => {
             let mut bytes = std::fs::read(path).ok()?;
             if bytes.len() <= INDEX_WRITTEN_BYTE {
